@@ -66,6 +66,9 @@ def constructors(tag, case):
         add("Categorical(ordered)", lambda: pandas.Series(pandas.Categorical(vals, categories=lv, ordered=True)))
     elif tag == "arrow_dictionary":
         add("Categorical -> arrow dictionary (table only)", lambda: pandas.Series(pandas.Categorical(vals, categories=lv)))
+        add("pandas column of ArrowDtype(dictionary)",
+            lambda: pa.table({"v": pa.DictionaryArray.from_arrays(pa.array([None if v is None else lv.index(v) for v in vals], type=pa.int8()), pa.array(lv))})
+            .to_pandas(types_mapper=pandas.ArrowDtype)["v"])
     elif tag in ("float64", "float32"):
         add(tag, lambda: pandas.Series([float("nan") if v is None else float(v) for v in vals], dtype=tag))
     elif tag in ("int64", "int32", "int8", "uint8", "uint64"):
@@ -94,11 +97,10 @@ def all_numeric(mm, output) -> bool:
 
     if output == "sparse":
         return mm.dtype.kind in "biuf"
+    # a matrix is numeric when its storage is: an object array of python numbers is not something a numeric consumer can take
     if output == "pandas":
-        return all((mm[c].dtype.kind in "biuf") if hasattr(mm[c].dtype, "kind") and mm[c].dtype.kind != "O" else all(is_number(v) for v in mm[c].tolist())
-                   for c in mm.columns)
-    a = numpy.asarray(mm)
-    return a.dtype.kind in "biuf" or all(is_number(v) for v in a.ravel().tolist())
+        return all(getattr(mm[c].dtype, "kind", "O") in "biuf" for c in mm.columns)
+    return numpy.asarray(mm).dtype.kind in "biuf"
 
 
 def replay_case(case):
@@ -115,7 +117,7 @@ def replay_case(case):
             forms.append(("narwhals-arrow", pa.Table.from_pandas(df, preserve_index=False), "narwhals"))
         except Exception:
             pass
-        if case["tag"] == "arrow_dictionary":
+        if case["tag"] == "arrow_dictionary" and label.startswith("Categorical"):
             forms = [f for f in forms if f[0] == "narwhals-arrow"]
         for form, data, mat in forms:
             for output in OUTPUTS:
